@@ -402,6 +402,10 @@ def check(run, replay=None):
     if not B.check_layout(run.prog):
         run.inconclusive.append('data layout differs')
         return
+    lm = B.layout_mismatch(run.prog, B.SEARCH_LAYOUT)
+    if lm:
+        run.inconclusive.append('data layout differs from what the harness encodes: %s' % ', '.join(lm))
+        return
     run.extra['explanation'] = __doc__
     N = 3      # four generated moves: Q, R and AB queries get no verdict within 60 s (tried); stated bound for both tiers
     jobs = [('AB', n) for n in range(1, N + 1)] + [('Q', n) for n in range(0, N + 1)] + [('R', n) for n in range(1, N + 1)] + [('W', 0)]
